@@ -1,5 +1,5 @@
 // govc:pkg .
-// govc:bound second test: 20 feeds of one query with FIVE aggregates over nested-field expressions that share their first field (sum(n.x), sum(n.x + n.y), max(n.x * 2), min(n.y), nth_value(n.x, 2)); third test: merge_agg over three batches of five values (float64 needing more than float32 precision, large integers, text with a comma, float32, bool); first test: 9 aggregate SELECT items (incl. a CASE argument that maps NULL / missing to a number) (sum, avg, min, max, count(col), count(*), first_value, last_value, collect, expression arguments) x 30 (thorough: 120) random feeds of 18 rows over 3 groups with NULL and missing inputs, two consecutive batches per group (state must not leak)
+// govc:bound second test: 20 feeds of one query with FIVE aggregates over nested-field expressions that share their first field (sum(n.x), sum(n.x + n.y), max(n.x * 2), min(n.y), nth_value(n.x, 2)); third test: merge_agg over three batches of five values (float64 needing more than float32 precision, large integers, text with a comma, float32, bool); first test: 14 aggregate SELECT items (first_value / last_value over an expression whose first / last row is NULL included) (incl. a CASE argument that maps NULL / missing to a number, and arithmetic over two columns one of which may be NULL) (sum, avg, min, max, count(col), count(*), expression arguments) x 30 (thorough: 120) random feeds of 18 rows over 3 groups with NULL and missing inputs, two consecutive batches per group (state must not leak)
 // Bounded stand-in (NOT a proof) for the wiring around the accumulators under contract (NULL skipping and numeric
 // coercion in GroupAggregator.Add, expression arguments evaluated per row, reset between batches, partitioning by key).
 package streamsql
@@ -101,6 +101,43 @@ func govcAggItems() []govcAggItem {
 			}
 			return s
 		}},
+		// arithmetic over two columns, one of which may be NULL: NULL + w is NULL, so the row is skipped (w is 10 in every row)
+		{"SUM(v + w)", func(vs []any) any {
+			xs := govcAggNums(vs)
+			if len(xs) == 0 {
+				return nil
+			}
+			s := 0.0
+			for _, x := range xs {
+				s += x + 10
+			}
+			return s
+		}},
+		{"COUNT(v + w)", func(vs []any) any { return float64(len(govcAggNums(vs))) }},
+		{"MIN(w - v)", func(vs []any) any {
+			xs := govcAggNums(vs)
+			if len(xs) == 0 {
+				return nil
+			}
+			m := 10 - xs[0]
+			for _, x := range xs {
+				m = math.Min(m, 10-x)
+			}
+			return m
+		}},
+		// first_value / last_value report the first / last row's value even when it is NULL, also over an expression argument
+		{"FIRST_VALUE(v * 2)", func(vs []any) any {
+			if f, ok := vs[0].(float64); ok {
+				return 2 * f
+			}
+			return nil
+		}},
+		{"LAST_VALUE(v * 2)", func(vs []any) any {
+			if f, ok := vs[len(vs)-1].(float64); ok {
+				return 2 * f
+			}
+			return nil
+		}},
 		{"MAX(v + 1)", func(vs []any) any {
 			xs := govcAggNums(vs)
 			if len(xs) == 0 {
@@ -144,7 +181,7 @@ func TestGovcBounded_aggregates_per_group_and_batch(t *testing.T) {
 			var want []map[string]any
 			for i := 0; i < 18; i++ {
 				g := []string{"a", "b", "a|b"}[rng.Intn(3)]
-				row := map[string]any{"g": g}
+				row := map[string]any{"g": g, "w": 10.0}
 				var v any
 				switch rng.Intn(6) {
 				case 0:
